@@ -90,24 +90,21 @@ def make_triangle_mesh(points, size_u, size_v, **kwargs):
     tri_idx = 0  # triangle index numbering start
 
     # Variable initialization
-    u_jump = (1.0 / float(size_u - 1)) * vertex_spacing  # for computing vertex parametric u value
-    v_jump = (1.0 / float(size_v - 1)) * vertex_spacing  # for computing vertex parametric v value
     varr_size_u = len(range(0, size_u, vertex_spacing))  # vertex array size on the u-direction
     varr_size_v = len(range(0, size_v, vertex_spacing))  # vertex array size on the v-direction
 
     # Generate vertices directly from input points (preliminary evaluation)
     vertices = [Vertex() for _ in range(varr_size_v * varr_size_u)]
-    u = 0.0
     for i in range(0, size_u, vertex_spacing):
-        v = 0.0
+        # Compute the parametric position from the index, adding up the jump values drifts out of the [0, 1] domain
+        u = float(i) / float(size_u - 1)
         for j in range(0, size_v, vertex_spacing):
+            v = float(j) / float(size_v - 1)
             idx = j + (i * size_v)
             vertices[vrt_idx].id = vrt_idx
             vertices[vrt_idx].data = points[idx]
             vertices[vrt_idx].uv = [u, v]
             vrt_idx += 1
-            v += v_jump
-        u += u_jump
 
     #
     # Organization of vertices in a quad element on the parametric space:
